@@ -60,7 +60,11 @@ func pullFamily(r *runner.Run, t *testing.T, family string, ops []string, depth 
 				return
 			}
 			defer func() { a.Shutdown() }()
-			for _, id := range []string{"a", "b"} {
+			ids := []string{"a", "b"}
+			if family == "extend" {
+				ids = ids[:1] // one message: every later dequeue is about the message whose lease was extended
+			}
+			for _, id := range ids {
 				if err := a.Store.Enqueue(queue.Envelope{ID: id, Route: "/r", Target: "pull", Payload: []byte(id)}); err != nil {
 					why = "INFRA enqueue: " + err.Error()
 					return
